@@ -75,6 +75,8 @@ class AsmForms:
                 if tier != "thorough" and "{R}" in tmpl:
                     # quick: all four registers only for one spelling, else X and S
                     pass
+                if m in ("PSHS", "PSHU", "PULS", "PULU", "TFR", "EXG") and f in ("idx0bare", "idxA", "idxB", "idxD"):
+                    continue      # these operand texts are register lists / pairs for the stack and transfer instructions (asm_special)
                 for r in regs:
                     sps = spell if lit else [None]
                     for sp in sps:
